@@ -146,10 +146,10 @@ PROPS = {
         "assumptions": [],
     },
     "C07": {
-        "claim": "Decides the sodg-side clause, in the conservative direction: no user-written unsafe block/fn/impl/extern block, raw pointer or transmute anywhere in the crate (HIR + MIR); every resolved callee in emap/micromap/microstack is outside the audited deny-list (uninitialised constructor, bitwise-reading iterators, *_unchecked, any unsafe fn), so each element access goes through an entry point that asserts its bound in a debug-assertion build; Stack::from_vec only on a literal of at most 16 elements; the locked checksums of the containers equal the audited ones; the element types for which the containers' bitwise reads are sound are unchanged; a graph built from the ids of another one (slice) gets that graph's vertex capacity. It can reject code that is in fact safe; it cannot accept code that leaves the checked API. Does not decide the containers' internals, release builds, or 'calls within the limits complete' (C02's no-panic clause). GC6c: the two group tables are created with the same size, so a group id valid for one is valid for the other. NX2: next_id() searches the whole vertex store from the allocator position, so it completes whenever an absent id at or above the position remains (one instance of 'calls within the limits complete'; the clause as a whole is not decided). RW1: bind() records an edge only through micromap's insert (which asserts room for a new key) or a checked_insert whose refusal is unwrapped, so the (N+1)-th label stops with a panic. LM (exact): a member list holds exactly 16 vertices, so the 17th member of a group stops in microstack's push assertion, and the group tables have at least the documented 16 slots.",
+        "claim": "Decides the sodg-side clause, in the conservative direction: no user-written unsafe block/fn/impl/extern block, raw pointer or transmute anywhere in the crate (HIR + MIR); every resolved callee in emap/micromap/microstack is outside the audited deny-list (uninitialised constructor, bitwise-reading iterators, *_unchecked, any unsafe fn), so each element access goes through an entry point that asserts its bound in a debug-assertion build; Stack::from_vec only on a literal of at most 16 elements; the locked checksums of the containers equal the audited ones; the element types for which the containers' bitwise reads are sound are unchanged; a graph built from the ids of another one (slice) gets that graph's vertex capacity. It can reject code that is in fact safe; it cannot accept code that leaves the checked API. Does not decide the containers' internals, release builds, or 'calls within the limits complete' (C02's no-panic clause). GC6c: the two group tables are created with the same size, so a group id valid for one is valid for the other. NX2: next_id() searches the whole vertex store from the allocator position, so it completes whenever an absent id at or above the position remains (one instance of 'calls within the limits complete'; the clause as a whole is not decided). CL1: a clone has every table of the original (a clone without the counters stops in the first read). RW1: bind() contains no always-compiled assertion other than the documented preconditions and the container's own full-map condition, and records an edge only through micromap's insert (which asserts room for a new key) or a checked_insert whose refusal is unwrapped, so the (N+1)-th label stops with a panic. LM (exact): a member list holds exactly 16 vertices, so the 17th member of a group stops in microstack's push assertion, and the group tables have at least the documented 16 slots.",
         "note": "Trusted: the audit of emap 0.0.13 / micromap 0.0.19 / microstack 0.0.7 by reading (DESIGN §3): bounds asserted under debug_assertions, push asserts in all builds. Claimed for debug-assertion builds only, as the property says.",
         "technique": "HIR/MIR unsafe scan + who-may-call deny-list over resolved callees + lockfile/type facts",
-        "rules": [("MS1", MS.ms1), ("MS2", MS.ms2), ("MS3", MS.ms3), ("MS4", MS.ms4), ("MS5", MS.ms5), ("MS6", MS.ms6), ("RW1", functools.partial(RW.rw1, only_stop=True)), ("NX2/NX3", NX.nx23), ("GC6c", functools.partial(G.gc6, parts="c")), ("LM", functools.partial(G.limits, exact=True)), ("MS2x", MS.ms_cross)],
+        "rules": [("MS1", MS.ms1), ("MS2", MS.ms2), ("MS3", MS.ms3), ("MS4", MS.ms4), ("MS5", MS.ms5), ("MS6", MS.ms6), ("RW1", functools.partial(RW.rw1, only_stop=True)), ("NX2/NX3", NX.nx23), ("CL1/CL4", NX.cl1), ("GC6c", functools.partial(G.gc6, parts="c")), ("LM", functools.partial(G.limits, exact=True)), ("MS2x", MS.ms_cross)],
         "explanation": "MS1 no unsafe, MS2 container deny-list over all resolved callees (floor 60 sites), MS3 from_vec literal, MS4 audited checksums, MS5 element types; thorough adds a clippy disallowed_methods cross-check.",
         "trusted": [RUSTC, CONTAINERS],
         "assumptions": ["debug-assertion builds"],
